@@ -880,7 +880,7 @@ def _d_icmp(d, off, end, ctx):
       _flds(e, o, ("unused", 2), ("mtu", 2))
     else:
       _flds(e, o, ("unused", 4))
-    if end - (o + 4) >= 20:
+    if end - (o + 4) >= 20 and (b[o + 4] >> 4) == 4 and (b[o + 4] & 0xf) >= 5:
       return _d_ipv4(d, o + 4, end, dict(ctx, embedded=True))
     d.payload = (o + 4, end)
     return
@@ -930,7 +930,7 @@ def _d_icmp6(d, off, end, ctx):
     _need(b, o, 4, end, "icmp6 error")
     e = d.layer("icmp6.err%d" % ty, o, o + 4)
     _flds(e, o, ("word", 4))
-    if end - (o + 4) >= 40:
+    if end - (o + 4) >= 40 and (b[o + 4] >> 4) == 6:
       return _d_ipv6(d, o + 4, end, dict(ctx, embedded=True))
     d.payload = (o + 4, end)
     return
